@@ -3,8 +3,11 @@
    declared maximum length (prefix width) and every actual length including 0.
    The three-way NULL / empty / absent distinction at row-image level is
    C13_three_way (Proofs/RowProofs.v) once the row model is in scope (now: Props/C09.v, C09_three_way). *)
+From Coq Require Import String.
 From GB Require Import Base.Prelude Model.Cell Spec.Values.
 From GB Require Import Proofs.CellCommon Proofs.CellSimple.
+From GB Require Import Model.Header Model.Events Model.Rbr Model.Streamer Spec.EncHeader Spec.EncEvent Spec.Expect.
+From GB Require Import Proofs.ImageProofs Proofs.RowsProofs.
 Open Scope Z_scope.
 
 Theorem C13_varchar : forall ffmt tz jsonp max vs uns s,
@@ -43,3 +46,67 @@ Example C13_empty_is_not_null :
   cell_bytes (fun _ _ => []) (fun _ => 0) (fun _ => Err EJson) [0; 0] 0 15 300 false = Ok (Some [], 2) /\
   wf_type (TChar 1023) = true /\ wf_value (TChar 1023) false (VBytes [0; 39; 255]) = true.
 Proof. repeat split; vm_compute; reflexivity. Qed.
+
+(* ---- row level, with the padding bits of the bitmaps set: a write event with partial images (binlog_row_image =
+        MINIMAL) on an 11-column table of string / binary columns; 7 columns are present, so neither the presence
+        bitmap (11 bits) nor the rows' NULL bitmaps (7 bits) fill their last byte.  The event is decoded from its
+        bytes by the model (checksum strip, Rows, then every image column by column).  Whatever the master left
+        in the unused bits (0, all ones as MySQL's pack_row does, or a mixed pattern), NULL, the empty value and an
+        absent column stay three different things and every value is delivered verbatim. ---- *)
+Definition p_cfg (pc pn : Z) : cfg :=
+  {| c_crc := true; c_v2 := false; c_tid4 := true; c_hlen := 19; c_nsizes := 35; c_pad_cols := pc; c_pad_null := pn; c_pad_tm := pn |}.
+Definition p_specs : list colspec :=
+  [(str "a", (TVarchar 300 false, false)); (str "b", (TVarchar 20 false, false)); (str "c", (TChar 10, false));
+   (str "d", (TBlob 2 252, false)); (str "e", (TBlob 1 249, false)); (str "f", (TGeometry 4, false));
+   (str "g", (TVarchar 1000 true, false)); (str "h", (TChar 255, false)); (str "i", (TBlob 3 250, false));
+   (str "j", (TBlob 4 251, false)); (str "k", (TVarchar 5 false, false))]%string.
+Definition p_cols : list (coltype * bool) := specs_cols p_specs.
+Definition p_row1 : list cellv :=
+  [CVal (VBytes (str "hi")); CVal (VBytes []); CNull; CAbsent; CVal (VBytes []); CNull; CAbsent;
+   CVal (VBytes (str "x")); CAbsent; CVal (VBytes [0; 255; 39]); CAbsent]%string.
+Definition p_row2 : list cellv :=
+  [CNull; CVal (VBytes (str "abc")); CVal (VBytes []); CAbsent; CNull; CVal (VBytes [1]); CAbsent;
+   CNull; CAbsent; CVal (VBytes []); CAbsent]%string.
+Definition p_rows : rows_def :=
+  {| rd_kind := 0; rd_id := 9; rd_flags := 1; rd_extra := []; rd_before := []; rd_after := [p_row1; p_row2] |}.
+Definition p_t : table_def :=
+  {| td_id := 9; td_flags := 1; td_db := str "d"; td_name := str "t";
+     td_cols := map (fun p => (fst p, true)) p_cols; td_optional := [] |}%string.
+Definition p_ti : tinfo := {| ti_name := (str "d", str "t"); ti_cols := map (fun s => (cs_name s, cs_uns s)) p_specs |}%string.
+Definition p_hdr (t : Z) : hdr := {| h_ts := 1600000000; h_type := t; h_sid := 1; h_next := 4096; h_flags := 0 |}.
+Definition p_ffmt (b x : Z) : bytes := [].
+Definition p_tz (x : Z) : Z := 0.
+Definition p_jsonp (b : bytes) : res bytes := Err EJson.
+Definition p_wire (c : cfg) : bytes := enc_ev c (p_hdr (rows_type c 0)) (enc_rows_body c (map fst p_cols) p_rows) [9; 9; 9; 9].
+(* what the consumer gets: per row, per column (absent flag, data) *)
+Definition p_delivered (c : cfg) : res (option (list (list (bool * option bytes)))) :=
+  do ev <- strip_checksum56 (expect_format c []) (p_wire c);
+  do rs <- ev_rows (expect_format c []) (expect_table_map (c_pad_tm c) p_t) ev;
+  do o <- rows_images p_ffmt p_tz p_jsonp (expect_table_map (c_pad_tm c) p_t) p_ti rs false true (rs_rows rs) [] [];
+  Ok (option_map (fun iv => map (map (fun col => (c_empty col, c_data col))) (snd iv)) o).
+Definition p_expected : list (list (bool * option bytes)) :=
+  [[(false, Some (str "hi")); (false, Some []); (false, None); (true, None); (false, Some []); (false, None); (true, None);
+    (false, Some (str "x")); (true, None); (false, Some [0; 255; 39]); (true, None)];
+   [(false, None); (false, Some (str "abc")); (false, Some []); (true, None); (false, None); (false, Some [1]); (true, None);
+    (false, None); (true, None); (false, Some []); (true, None)]]%string.
+
+Example C13_three_way_with_padding :
+  length p_cols = 11%nat /\ length (null_bits p_row1) = 7%nat /\
+  forallb (fun p => wf_cfg (p_cfg (fst p) (snd p))) [(0, 0); (255, 255); (0, 255); (172, 83)] = true /\
+  forallb (wf_image p_cols (first_present (rd_after p_rows) 11)) (rd_after p_rows) = true /\
+  (* the padding is on the wire (presence bitmap: bits 3..7 of the second byte; NULL bitmaps: bit 7) *)
+  pack_bits_pad 0 (present_bits p_row1) = [183; 2] /\ pack_bits_pad 255 (present_bits p_row1) = [183; 250] /\
+  pack_bits_pad 0 (null_bits p_row1) = [20] /\ pack_bits_pad 255 (null_bits p_row1) = [148] /\
+  pack_bits_pad 255 (null_bits p_row2) = [169] /\
+  p_wire (p_cfg 255 255) <> p_wire (p_cfg 0 0) /\ length (p_wire (p_cfg 255 255)) = length (p_wire (p_cfg 0 0)) /\
+  (* and changes nothing in what is delivered *)
+  p_delivered (p_cfg 0 0) = Ok (Some p_expected) /\
+  p_delivered (p_cfg 255 255) = Ok (Some p_expected) /\
+  p_delivered (p_cfg 0 255) = Ok (Some p_expected) /\
+  p_delivered (p_cfg 172 83) = Ok (Some p_expected) /\
+  (* which is what the specification says each cell must be *)
+  map (fun img => map (fun col => (c_empty col, c_data col)) (expect_columns p_ffmt p_tz p_specs img)) [p_row1; p_row2] = p_expected.
+Proof.
+  repeat match goal with |- _ /\ _ => split end;
+    try (vm_compute; reflexivity); try (vm_compute; discriminate).
+Qed.
